@@ -115,6 +115,16 @@ Plan gen_c07(uint64_t seed, int tier)
       }
     }
   }
+  if (terminal == 2 && nthreads >= 2 && r.chance(1, 3))
+  {
+    // the same signal hits a second thread (double Ctrl-C, two threads faulting shortly after each other): whichever
+    // raises first is the victim; the other delivery happens before, while or after its handler flushes
+    int second = (victim + 1) % nthreads;
+    auto& sops = p.threads[static_cast<size_t>(second)];
+    size_t pos = sops.empty() ? 0 : r.below(static_cast<uint32_t>(sops.size() + 1));
+    sops.insert(sops.begin() + static_cast<long>(pos), Op{OP_RAISE, sig});
+    p.cfg["second_signal"] = 1;
+  }
   // threads that log and are gone long before the end
   for (int t = nthreads; t < nthreads + nexited; ++t)
   {
